@@ -9,7 +9,47 @@ var credDefects = []string{"none", "wrongkey", "flipmi", "truncmi", "unknownuser
 
 // genC03: every method x credential defect x server state, both nonce implementations and
 // every HMAC truncation length (handler level), with the clock moved across the nonce hour.
+// genC03AfterMI: a CreatePermission whose credentials are in order and which names one peer -
+// with a second XOR-PEER-ADDRESS appended behind MESSAGE-INTEGRITY (FINGERPRINT recomputed),
+// which takes no key. The authentic request is for the first peer only; the second peer then
+// sends to the relayed address and is sent to.
+func genC03AfterMI(p *Plan, r *RNG) {
+	baseSrvConfig(p, r)
+	p.Flavor = "cred-after-integrity"
+	if r.Chance(1, 3) {
+		p.Cfg.Listener = "tcp"
+	}
+	addClients(p, r, 1)
+	addPeers(p, r, 2)
+	c := p.Clients[0].ID
+	a, b := p.Peers[0], p.Peers[1]
+	p.Ops = append(p.Ops, Op{Actor: c, Kind: "allocate", At: gap(int64(r.Range(10, 200)) * ms), A: OpArgs{Lifetime: -1}})
+	if r.Chance(1, 2) {
+		p.Ops = append(p.Ops, Op{Actor: c, Kind: "createperm", At: gap(200 * ms), A: OpArgs{Peer: a.Addr}})
+	}
+	p.Ops = append(p.Ops, Op{Actor: c, Kind: "createperm", At: gap(int64(r.Range(100, 900)) * ms), A: OpArgs{Peers: []string{a.Addr, b.Addr}, Flags: []string{"aftermi"}}})
+	for k := r.Range(2, 6); k > 0; k-- {
+		g := gap(int64(r.Range(50, 900)) * ms)
+		switch r.Intn(4) {
+		case 0:
+			p.Ops = append(p.Ops, Op{Actor: b.ID, Kind: "peer_send", At: g, A: OpArgs{Target: c, Len: r.Range(10, 200)}})
+		case 1:
+			p.Ops = append(p.Ops, Op{Actor: c, Kind: "send", At: g, A: OpArgs{Peer: b.Addr, Len: r.Range(10, 200)}})
+		case 2:
+			p.Ops = append(p.Ops, Op{Actor: a.ID, Kind: "peer_send", At: g, A: OpArgs{Target: c, Len: r.Range(10, 200)}})
+		case 3:
+			p.Ops = append(p.Ops, Op{Actor: c, Kind: "send", At: g, A: OpArgs{Peer: a.Addr, Len: r.Range(10, 200)}})
+		}
+	}
+	p.Ops = append(p.Ops, Op{Actor: c, Kind: "binding", At: gap(300 * ms)})
+	p.QuietNS = 5 * sec
+}
+
 func genC03(p *Plan, r *RNG) {
+	if r.Chance(1, 14) {
+		genC03AfterMI(p, r)
+		return
+	}
 	if r.Chance(1, 10) {
 		// the TCP relay methods (Connect, ConnectionBind by owner, other user, bad credentials)
 		genC16(p, r)
